@@ -12,11 +12,13 @@
 (*           only part of the buffer (capacity shrinks with the slice),    *)
 (*           and the `chunkStart != bufStart` error                        *)
 (*   Patch   the PATCH of the chunk and the classification of its reply:   *)
-(*           201 | 4xx + Location + Range (retryCur++, NO limit check:     *)
-(*           suspicion S2) | any other status but 202 (retryCur++, upload  *)
-(*           status GET, limit check) | 202 (retryCur-- when positive);    *)
-(*           then chunkStart := end of the reported Range + 1, or          *)
-(*           += chunkSize when no Range is given                           *)
+(*           201 | 4xx + Location + Range (retryCur++, no limit check) |   *)
+(*           any other status but 202 (retryCur++, upload status GET,      *)
+(*           limit check) | 202 (retryCur-- when positive); then           *)
+(*           chunkStart := end of the reported Range + 1, or += chunkSize  *)
+(*           when no Range is given; then (Guard, commit 94ee6b0) the      *)
+(*           noProgress counter: consecutive rounds that do not advance    *)
+(*           chunkStart are limited, whatever the status                   *)
 (*   Finish  loop exit: digest / size check and the final PUT              *)
 (* Each reghttp.Do inside is one logical request of RegHttp.tla; here only *)
 (* its outcome matters (the environment picks it).                         *)
@@ -24,15 +26,16 @@
 (* Deliberate deviations: the upload retry limit (10 in the code) is the   *)
 (* constant UL; contents are abstracted to offsets; Location changes, the  *)
 (* digest and OCI-Chunk-Min-Length are left out (C05 models them).         *)
-(* Guard = TRUE adds the repair of findings/C12-2.patch: consecutive       *)
-(* rounds that do not advance chunkStart are counted and limited.          *)
+(* Guard = TRUE is the code since commit 94ee6b0 (findings/C12-2.patch).   *)
+(* Guard = FALSE is the code before (suspicion S2 and its 202/201 sibling: *)
+(* endless repetition), kept to explain seeded/fixrev-C12-2.               *)
 (***************************************************************************)
 EXTENDS Integers, Sequences, TLC
 
 CONSTANTS B,      \* blob length
           C,      \* chunk size
           UL,     \* upload retry limit
-          Guard,  \* FALSE: as the code
+          Guard,  \* TRUE: as the code (noProgress counter); FALSE: before commit 94ee6b0
           MaxLen  \* generator: length of the scripted part of a reply script
 
 VARIABLES pc, chunkStart, bufStart, bufLen, bufCap, chunkSize, final, rdPos, retryCur, stale,
@@ -107,6 +110,6 @@ TypeOK == /\ pc \in {"fill", "patch", "finish", "done", "fail"}
 Terminates == <>(pc \in {"done", "fail"})
 \* the same chunk is not sent again and again: bounded by the retry limit
 NoEndlessRepeat == same <= 2 * (UL + 1)
-\* state constraint for the runs on the code as it is (the counter grows without bound)
+\* state constraint for the runs with Guard = FALSE (the counter grows without bound)
 Bounded == retryCur <= UL + 3 /\ same <= 2 * (UL + 1) + 1
 =============================================================================
